@@ -85,3 +85,28 @@ Print Assumptions source_tie.
 Theorem source_tie_backends : forall W be, request_source_is_model (env_of W be) /\ response_source_is_model (env_of W be) /\ headers_source_is_model (env_of W be).
 Proof. intros W be. apply source_tie, backends_fwd. Qed.
 Print Assumptions source_tie_backends.
+
+(* ---- the two `parse_with_config` wrappers are translated from /repo/src/lib.rs on this run as well
+   (Generated/LibApi.v: g_request_with_config_body / g_response_with_config_body -- `mem::take(&mut self.headers)`,
+   the pointer casts, the call of the core with its Result as a value, `self.headers = ..` in the non-Complete arm)
+   and proved equal to Api.request_with_config / response_with_config, which the entry-point theorems above are
+   about; the remaining delegations (parse, ParserConfig::parse_*, *_with_uninit_headers, new) are one expression
+   each and pinned by token text ---- *)
+From HV Require Import Imp.
+From HV.Generated Require Import LibApi.
+From HV.Proofs Require Import TieReq TieResp.
+Theorem with_config_wrappers_as_translated : forall E, env_fwd E -> forall cf buf,
+  (forall rq x y,
+     fin_reqw (Imp.ifun (g_request_with_config_body E (S (length buf)) cf buf)
+                        (g_request_with_config_init (q_method rq) (q_path rq) (q_version rq) (q_hdrs rq) x y) (cur_new buf))
+     = request_with_config E cf buf rq) /\
+  (forall rp x y,
+     fin_respw (Imp.ifun (g_response_with_config_body E (S (length buf)) cf buf)
+                         (g_response_with_config_init (p_version rp) (p_code rp) (p_reason rp) (p_hdrs rp) x y) (cur_new buf))
+     = response_with_config E cf buf rp).
+Proof.
+  intros E HE cf buf. split; intros.
+  - apply tie_request_with_config. exact HE.
+  - apply tie_response_with_config. exact HE.
+Qed.
+Print Assumptions with_config_wrappers_as_translated.
